@@ -43,15 +43,25 @@ def bucketCounts (bounds : List Int) (xs : List Int) : List Nat :=
 def refKeys (L : Nat) (arr : List (Attr × Int)) : List Attr :=
   firstDistinct ((relabel L arr).map (·.1))
 
-/-- reference points of one window for an aggregate function of the shape of `g` (only the shape — kind, boundaries,
-noSum — of `g` is read) -/
+/-- what the point of one attribute set must carry, given the values `xs` of the measurements reported under that
+set, in arrival order: their sum (sums), the last one (last-value aggregates), their number, sum and per-bucket
+numbers (histograms).  Only the shape of `g` — kind, boundaries, noSum — is read. -/
+def payload (g : Agg) (xs : List Int) : PV :=
+  match g with
+  | .sum _ | .psum _ => PV.num (sumInts xs)
+  | .lv _ | .plv _ => PV.num (xs.getLast?.getD 0)
+  | .hist h | .expo h => PV.hist xs.length (if h.noSum then 0 else sumInts xs) (bucketCounts h.bounds xs)
+
+/-- reference points of one window: one point per reported key, carrying the payload of the measurements mapped
+to that key -/
 def refPoints (g : Agg) (L : Nat) (arr : List (Attr × Int)) : List (Attr × PV) :=
-  (refKeys L arr).map fun k =>
-    let xs := under L arr k
-    (k, match g with
-        | .sum _ | .psum _ => PV.num (sumInts xs)
-        | .lv _ | .plv _ => PV.num (xs.getLast?.getD 0)
-        | .hist h | .expo h => PV.hist xs.length (if h.noSum then 0 else sumInts xs) (bucketCounts h.bounds xs))
+  (refKeys L arr).map fun k => (k, payload g (under L arr k))
+
+/-- reference points of a precomputed sum with DELTA temporality: for every set reported in this cycle (after the
+limit: kept sets and the overflow set) the value observed in this cycle minus the value observed for the same
+reported set in the IMMEDIATELY PRECEDING cycle `pw` (0 when it was not reported then) — sum.go:168-207 -/
+def refPointsDelta (L : Nat) (pw w : List (Attr × Int)) : List (Attr × PV) :=
+  (refKeys L w).map fun k => (k, PV.num (sumInts (under L w k) - sumInts (under L pw k)))
 
 /-- the admission windows of a step sequence: the measurements each collection reports on.  `resets` says whether a
 collection starts a new window (delta temporality, precomputed aggregators) or the window is the whole lifetime
@@ -84,15 +94,42 @@ def conserved (g : Agg) (arr : List (Attr × Int)) (pts : List (Attr × PV)) : B
     total pts == (arr.length : Int) && (h.noSum || totalSum pts == sumInts (arr.map (·.2)))
   | .lv _ | .plv _ => true
 
-/-- per point: the additive content of the point reported under `k` is exactly what the measurements mapped to `k`
-put in — Σ of their values for sums, their number for histograms.  Together with `specKey` this is "keeps its
-identity" / "is aggregated under the overflow set" in terms of values. -/
+/-- per point: the point reported under `k` carries exactly the payload of the measurements that `specKey` maps to
+`k` — their sum (sums), the LAST of them (last-value aggregates), their number, sum and per-bucket numbers
+(histograms).  Together with `specKey` this is "keeps its identity" / "is aggregated under the overflow set" in
+terms of values. -/
 def perKeyOK (g : Agg) (L : Nat) (w : List (Attr × Int)) (pts : List (Attr × PV)) : Bool :=
-  pts.all fun p =>
-    match g with
-    | .sum _ | .psum _ => pvTotal p.2 == sumInts (under L w p.1)
-    | .hist _ | .expo _ => pvTotal p.2 == ((under L w p.1).length : Int)
-    | .lv _ | .plv _ => true
+  pts.all fun p => decide (p.2 = payload g (under L w p.1))
+
+/-- per point of a precomputed sum with delta temporality: observed now minus observed in the preceding cycle -/
+def psumDeltaOK (L : Nat) (pw w : List (Attr × Int)) (pts : List (Attr × PV)) : Bool :=
+  pts.all fun p => decide (p.2 = PV.num (sumInts (under L w p.1) - sumInts (under L pw p.1)))
+
+/-- conservation in the form that is true for the cumulative→delta conversion of precomputed sums: the reported
+points of a cycle add up to everything observed in the cycle minus what the preceding cycle had observed under the
+sets reported now -/
+def psumDeltaConserved (L : Nat) (pw w : List (Attr × Int)) (pts : List (Attr × PV)) : Bool :=
+  total pts == sumInts (w.map (·.2)) - sumInts ((refKeys L w).map fun k => sumInts (under L pw k))
+
+/-- bucket `i` of a point -/
+def pvBucket (i : Nat) : PV → Int
+  | .num _ => 0
+  | .hist _ _ cs => ((cs.getD i 0 : Nat) : Int)
+
+/-- per-bucket conservation of histograms: over all reported points, bucket `i` adds up to the number of
+measurements of the window that fall into bucket `i` -/
+def bucketsConserved (g : Agg) (w : List (Attr × Int)) (pts : List (Attr × PV)) : Bool :=
+  match g with
+  | .hist h | .expo h =>
+    (List.range (h.bounds.length + 1)).all fun i =>
+      sumInts (pts.map fun p => pvBucket i p.2) == ((w.filter fun m => searchIdx h.bounds m.2 == i).length : Int)
+  | _ => true
+
+/-- the windows of a clearing aggregate together with the window of the preceding collection -/
+def windowsPrev (pw w : List (Attr × Int)) : List AStep → List (List (Attr × Int) × List (Attr × Int))
+  | [] => []
+  | .meas a x :: r => windowsPrev pw (w ++ [(a, x)]) r
+  | .col _ :: r => (pw, w) :: windowsPrev w [] r
 
 /-- at most one point carries the overflow set, and without a limit nothing is redirected -/
 def keysOK (L : Nat) (arr : List (Attr × Int)) (pts : List (Attr × PV)) : Bool :=
